@@ -16,6 +16,7 @@ def run(ctx: Ctx) -> list[Ob]:
     obs += r4.layer_contracts(ctx, {"R4b"})
     obs += r8.run_guards(ctx, r8.GUARDS_MATCHERS)
     obs += r11.run(ctx)
+    obs += r1.r1d_sweep(ctx)
     return obs
 
 
